@@ -1487,6 +1487,8 @@ class FnTranslator:
             if full in self.t.binds:
                 return self.bound_property(e, full, ctx, pre, cond)
             tg = self.find_targets(self.cls_node.name if self.cls_node else None, e.attr)
+            for c_ in tg or []:
+                self.g.ensure(c_)
             if tg and tg[0].kind == "property":
                 return self.finish_call(e, tg, [], {}, ctx, pre, cond, want_raw=False)[1:]
             v = self.const_of(e, ctx)
@@ -1509,6 +1511,8 @@ class FnTranslator:
                 fty = td.get("field_types", {}).get(f, "Int")
                 return f"{obj}.{f}", fty
             tg = self.find_targets(td.get("py_class", oty), e.attr)
+            for c_ in tg or []:
+                self.g.ensure(c_)
             if tg:
                 if tg[0].kind != "property":
                     self.bad(e, f"{e.attr} is not a property")
@@ -1650,10 +1654,16 @@ class FnTranslator:
         if clsname and search_bases:
             r = g.src.lookup_global(self.file, clsname, self.local_imports)
             if r and r[0] == "class":
-                for brel, bcls in g.src.class_bases(r[1], r[2]):
+                todo, seen = list(g.src.class_bases(r[1], r[2])), set()
+                while todo:  # the base classes, nearest first
+                    brel, bcls = todo.pop(0)
+                    if (brel, bcls.name) in seen:
+                        continue
+                    seen.add((brel, bcls.name))
                     tg = g.by_key.get((bcls.name, fname))
                     if tg:
                         return tg
+                    todo.extend(g.src.class_bases(brel, bcls))
         return None
 
     def divmod_args(self, call, ctx, pre):
